@@ -407,7 +407,7 @@ pub fn record_offsets(output: &str) {
     quiet_panics();
     let mut out = Out::create(output);
     let mut r = rng(1414);
-    let n = if thorough() { 1200 } else { 160 };
+    let n = if thorough() { 1200 } else { 240 };
     let mut made = 0;
     let mut tries = 0;
     while made < n && tries < n * 30 {
